@@ -33,3 +33,9 @@ theorem makeFormat_translated (st : FState) :
   cases plus <;> cases minus <;> cases sharp <;> cases space <;> cases zero <;> cases wid <;> cases prec <;>
     simp [Trans.MakeFormat, makeFormat, noFlags, stateOf, Id.run, goItoa_nat, goEncodeRune, runeBytes, h118, h115, h100] <;>
     (repeat' split) <;> first | rfl | (simp_all; done) | (simp_all; rfl)
+
+/-- The public `redact.MakeFormat` (api.go) delegates to it. -/
+theorem api_makeFormat (st : FState) : Trans.API_MakeFormat (stateOf st) (st.verb : Int) = makeFormat st := by
+  rw [← makeFormat_translated]; rfl
+
+end Redact
